@@ -15,7 +15,7 @@
 import numpy
 
 from collada import primitive
-from collada.util import checkSource
+from collada.util import checkSource, parseUIntArray
 from collada.common import E
 from collada.common import DaeIncompleteError, DaeMalformedError
 
@@ -208,7 +208,7 @@ class LineSet(primitive.Primitive):
             if indexnode.text is None or indexnode.text.isspace():
                 index = numpy.array([], dtype=numpy.int32)
             else:
-                index = numpy.fromstring(indexnode.text, dtype=numpy.int32, sep=' ')
+                index = parseUIntArray(indexnode.text)
             index[numpy.isnan(index)] = 0
         except BaseException:
             raise DaeMalformedError('Corrupted index in line set')
